@@ -25,7 +25,7 @@ OTHER_KINDS = ("bytes", "bytearray", "list", "tuple", "memoryview", "array", "it
 
 
 def make_case(i, rng, tier):
-    inp = common.gen_input(rng, common.target_for(i, rng))
+    inp = common.gen_input(rng, common.target_for(i, rng), huge="lite")
     data = inp["data"]
     o = model.decode(inp["root"], data, cc=inp["cc"], enc=inp["enc"])
     if not o.ok:
